@@ -1,3 +1,5 @@
+#[cfg(mos_verif_threads)]
+use mos_simrt::std_shim as std;
 use crate::errors::{CoreResult, Diagnostics};
 use crate::parser::code_map::{CodeMap, File, Span};
 use crate::parser::mnemonic::Mnemonic;
